@@ -19,10 +19,18 @@ type pairCandidateSelector interface {
 	HandleBindingRequest(m *stun.Message, local, remote Candidate)
 }
 
-// responseSymmetric implements the transport-address check in RFC 8445 §7.2.5.2.1.
+// responseSymmetric implements the transport-address check in RFC 8445 §7.2.5.2.1:
+// the response must come from the address the request was sent to and must arrive
+// on the local candidate the request was sent from. Otherwise the pair formed by the
+// arrival candidate would be validated without a check of its own.
+// sendBindingRequest records the source of every request. A pending request without
+// a valid source (the zero value in bindingRequest literals built by hand in tests, or
+// a local candidate without a resolved address) is matched on network type and
+// destination only.
 func responseSymmetric(pendingRequest *bindingRequest, local Candidate, remoteAddr netip.AddrPort) bool {
 	return pendingRequest.networkType == local.NetworkType() &&
-		addrPortEqual(pendingRequest.destination, remoteAddr)
+		addrPortEqual(pendingRequest.destination, remoteAddr) &&
+		(!pendingRequest.source.IsValid() || addrPortEqual(pendingRequest.source, local.addrPort()))
 }
 
 type controllingSelector struct {
